@@ -1,6 +1,6 @@
 (* C15 suite glue: parse a trace line, run the model, judge the real observation.
-   case:  mode kind size prot flags hasfile filelen start hasraw rawdelta hasbase base page cohere
-   obs:   probe res size prot flags hasfile start samefd owned ptr pos d1 d2 coh1 coh2 *)
+   case:  mode kind size prot flags hasfile filelen start hasraw rawdelta hasbase base page cohere huge
+   obs:   probe res size prot flags hasfile start samefd owned ptr pos d1 d2 coh1 coh2 huge *)
 From VM Require Import Prelude.MachInt Prelude.Outcome Prelude.Tok Impl.MmapBuild Spec.C15.
 
 Definition os_of (c : case15) (probe : N) : os :=
@@ -11,12 +11,16 @@ Definition os_of (c : case15) (probe : N) : os :=
 Definition fstart (c : case15) : option N :=
   match c_file c with Some (_, s) => Some s | None => None end.
 
+(* the hint as the builder holds it / as the region reports it *)
+Definition huge_opt (h : N) : option bool := match h with 0 => None | 1 => Some false | _ => Some true end.
+Definition huge_code (h : option bool) : N := match h with None => 0 | Some false => 1 | Some true => 2 end.
+
 (* the constructor call of the case, as transcribed in Impl/MmapBuild.v *)
 Definition construct_region (c : case15) (o : os) : outcome (res region * list ev) :=
   let m := c_mode c in
   match c_kind c with
   | 0 => build m o {| q_size := c_size c; q_prot := c_prot c; q_flags := c_flags c;
-                      q_file := fstart c; q_raw := c_raw c |}
+                      q_file := fstart c; q_raw := c_raw c; q_huge := huge_opt (c_huge c) |}
   | 1 => mr_new m o (c_size c)
   | 2 => mr_from_file m o (match fstart c with Some s => s | None => 0 end) (c_size c)
   | 3 => mr_build m o (fstart c) (c_size c) (c_prot c) (c_flags c)
@@ -56,7 +60,7 @@ Definition has_rewind (l : list ev) : bool :=
 Definition obs_err (probe code : N) (pos d2 : N) : obs15 :=
   {| o_probe := probe; o_res := code; o_size := 0; o_prot := 0; o_flags := 0; o_hasfile := false;
      o_start := 0; o_samefd := false; o_owned := false; o_ptr := 0; o_pos := pos; o_d1 := 0;
-     o_d2 := d2; o_coh1 := 2; o_coh2 := 2 |}.
+     o_d2 := d2; o_coh1 := 2; o_coh2 := 2; o_huge := 0 |}.
 
 (* the harness examines coherence exactly under this condition *)
 Definition coh_tested (c : case15) (g : region) : bool :=
@@ -83,7 +87,8 @@ Definition run_C15 (c : case15) (probe : N) : obs15 :=
              o_d2 := Z.to_N (foot (c_page c) (l ++ drop_region g));
              o_coh1 := if t then 1 else 2;
              (* region -> file only for a shared mapping; a private one keeps its writes *)
-             o_coh2 := if t then (if hasbit (g_flags g) MAP_SHARED then 1 else 0) else 2 |}
+             o_coh2 := if t then (if hasbit (g_flags g) MAP_SHARED then 1 else 0) else 2;
+             o_huge := huge_code (g_huge g) |}
       end
   | _ => obs_err probe 99 (match c_file c with Some _ => 7 | None => 0 end) 0
   end.
@@ -91,7 +96,7 @@ Definition run_C15 (c : case15) (probe : N) : obs15 :=
 Definition enc15 (o : obs15) : list tok :=
   [TN (o_probe o); TN (o_res o); TN (o_size o); TN (o_prot o); TN (o_flags o); bool_tok (o_hasfile o);
    TN (o_start o); bool_tok (o_samefd o); bool_tok (o_owned o); TN (o_ptr o); TN (o_pos o);
-   TN (o_d1 o); TN (o_d2 o); TN (o_coh1 o); TN (o_coh2 o)].
+   TN (o_d1 o); TN (o_d2 o); TN (o_coh1 o); TN (o_coh2 o); TN (o_huge o)].
 
 Definition kind_ok (kind : N) (hasfile hasraw hasbase : bool) : bool :=
   match kind with
@@ -103,29 +108,32 @@ Definition kind_ok (kind : N) (hasfile hasraw hasbase : bool) : bool :=
   | 5 => negb hasraw && hasbase
   | _ => false end.
 
+(* the hint is a builder method: only kind 0 can carry one *)
+Definition huge_ok (kind huge : N) : bool := (huge <? 3) && ((kind =? 0) || (huge =? 0)).
+
 Definition is_pow2_page (p : N) : bool := (p =? 4096) || (p =? 16384) || (p =? 65536).
 
 Definition suite_C15 (inp obs : list tok) : verdict :=
   match inp, obs with
   | [TN md; TN kind; TN size; TN prot; TN flags; TN hasfile; TN flen; TN start; TN hasraw; TN raw;
-     TN hasbase; TN base; TN page; TN coh],
+     TN hasbase; TN base; TN page; TN coh; TN huge],
     [TN probe; TN res; TN osz; TN oprot; TN oflags; TN ohf; TN ostart; TN osame; TN oown; TN optr;
-     TN opos; TN d1; TN d2; TN c1; TN c2] =>
+     TN opos; TN d1; TN d2; TN c1; TN c2; TN ohuge] =>
       let hf := negb (hasfile =? 0) in let hr := negb (hasraw =? 0) in let hb := negb (hasbase =? 0) in
       if kind_ok kind hf hr hb && (size <? W64) && (prot <? 4294967296) && (flags <? 4294967296) &&
          (flen <? W64) && (start <? W64) && (raw <? W64) && (base <? W64) && is_pow2_page page &&
-         (probe <? 3)
+         (probe <? 3) && huge_ok kind huge
       then
         let c := {| c_mode := if md =? 0 then Debug else Release; c_kind := kind; c_size := size;
                     c_prot := prot; c_flags := flags;
                     c_file := if hf then Some (flen, start) else None;
                     c_raw := if hr then Some raw else None;
                     c_base := if hb then Some base else None;
-                    c_page := page; c_cohere := negb (coh =? 0) |} in
+                    c_page := page; c_cohere := negb (coh =? 0); c_huge := huge |} in
         let o := {| o_probe := probe; o_res := res; o_size := osz; o_prot := oprot; o_flags := oflags;
                     o_hasfile := negb (ohf =? 0); o_start := ostart; o_samefd := negb (osame =? 0);
                     o_owned := negb (oown =? 0); o_ptr := optr; o_pos := opos; o_d1 := d1; o_d2 := d2;
-                    o_coh1 := c1; o_coh2 := c2 |} in
+                    o_coh1 := c1; o_coh2 := c2; o_huge := ohuge |} in
         {| v_model := enc15 (run_C15 c probe); v_ok := ok_C15 c o; v_wellformed := true |}
       else malformed
   | _, _ => malformed end.
